@@ -254,6 +254,48 @@ def check_row(ctx, row, seed):
     return out
 
 
+BEYOND = ("unitary-tools:",)
+
+
+def check_unitary_tools(ctx):
+    """UnitaryTools.tla -> utils.compare_unitary / is_unitary / is_identity (behaviour beyond the statement of C02)"""
+    from orquestra.quantum.utils import compare_unitary, is_identity, is_unitary
+
+    from ..bridge import mat
+
+    res = ctx.tlc("UnitaryTools", constants=dict(Emitting=True), invariants=["MechanismDecidesWhereDefined", "UndefinedOnlyForUnequal", "Symmetric"], action_constraints=["Emit"], workers=8, coverage=False, timeout=900)
+    pairs = [e for e in res.emitted if "equal" in e]
+    if len(pairs) < 200 or not any(not e["defined"] for e in pairs) or not any(e["equal"] and e["ida"] != e["idb"] for e in pairs):
+        raise TLCError("UnitaryTools exported %d pairs" % len(pairs))
+    undefined_raises = 0
+    for e in pairs:
+        A, B = mat(e["a"]), mat(e["b"])
+        c = {"k": "unitary-tools", "a": e["ida"], "b": e["idb"]}
+        ctx.count(c, kind="compare_unitary (beyond the property)")
+        try:
+            got = bool(compare_unitary(A, B, tol=1e-9))
+        except ZeroDivisionError:
+            got = "ZeroDivisionError"
+        except Exception as ex:
+            got = type(ex).__name__
+        if e["defined"]:
+            if got is not e["equal"]:
+                ctx.violation("unitary-tools:compare", "compare_unitary of the pool matrices %s and %s: %s, equal up to one global phase: %s" % (e["ida"], e["idb"], got, e["equal"]), c)
+        else:
+            # <0|A^dagger B|0> = 0: the mechanism divides by zero (as found); a plain False would be the meaning
+            if got == "ZeroDivisionError":
+                undefined_raises += 1
+            elif got is not False:
+                ctx.violation("unitary-tools:compare", "compare_unitary of %s and %s (not equal up to a phase, first overlap entry zero): %s" % (e["ida"], e["idb"], got), c)
+        if not is_unitary(A, tol=1e-9) or bool(is_identity(A, tol=1e-9)) != (e["ida"][1] == 1):
+            ctx.violation("unitary-tools:predicates", "is_unitary / is_identity on the pool matrix %s: %s / %s" % (e["ida"], is_unitary(A, tol=1e-9), is_identity(A, tol=1e-9)), c)
+        for Mb in e["bad"]:
+            if is_unitary(mat(Mb), tol=1e-9):
+                ctx.violation("unitary-tools:predicates", "is_unitary accepts a matrix that is not unitary", c)
+    if undefined_raises:
+        ctx.note("compare_unitary raises ZeroDivisionError for %d of the %d ordered pairs whose first overlap entry <0|A^dagger B|0> is zero (e.g. I and X): UnitaryTools.tla shows the mechanism undefined exactly there, all such pairs being unequal - an observation beyond the listed properties" % (undefined_raises, sum(1 for e in pairs if not e["defined"])))
+
+
 def run(ctx):
     res = ctx.tlc("Gates", constants=dict(Emitting=True), invariants=INV, workers=4, coverage=False, timeout=900)
     rows = res.emitted
@@ -289,11 +331,15 @@ def run(ctx):
                 sampled.append(row["name"])
             else:
                 sampled.append(row["name"])
+    check_unitary_tools(ctx)
     ctx.bounds = {"gates": 27, "grid": "multiples of pi/4 over two periods; U3 4x4x4; MS 8x8", "random_points_per_gate": 40}
     ctx.judged_numerically.append("matrix = specification polynomial: proved by symbolic coefficient extraction for %s; sampled (grid + random, more than 2*degree+1 points) for %s" % (proved, sampled))
 
 
 def replay(ctx, case):
+    if case.get("k") == "unitary-tools":
+        check_unitary_tools(ctx)
+        return
     res = ctx.tlc("Gates", constants=dict(Emitting=True), invariants=INV, workers=4, coverage=False, timeout=900)
     for row in res.emitted:
         if row["name"] == case["name"]:
